@@ -2,14 +2,1216 @@
 
 package main
 
+// C20 — kernel build finds every runtime redirect, exactly once, reproducibly.
+//
+// A case is the description of a Go source tree (directories, files, declarations
+// and the comment lines around them). The tree is written into a fresh temporary
+// directory, the REAL (*Context).FindRedirects is run with that directory as the
+// working directory (this is how kbuild runs it: cwd = kernel root, Walk(".")),
+// and its table is compared
+//
+//   - as a multiset with a model that is known by construction: one entry
+//     (symbol as written, "<kernel import path>[/<dir>].<Func>") per exact
+//     `//go:redirect-from <sym>` line in the doc comment of a plain function of a
+//     non-test .go file, and nothing for any other line of the case;
+//   - as a sequence with the tables of repeated builds of the same tree (fresh
+//     Context each time): they must all be identical, element by element.
+//
+// One further case ({"kernel":true}) runs the same two oracles on
+// $VERIF_REPO/kernel, with an independent line-based scanner as the model.
+//
+// What is deliberately NOT generated, because the statement does not decide it
+// (see c20Validate, which rejects such cases): annotated methods, annotations
+// trailing the function's own line, `//go:redirect-from` without a symbol or
+// directly followed by other characters, symbols containing blanks, functions
+// named init or _, directories/files that the go tool would not build (leading
+// '_' or '.', testdata, vendor, GOOS/GOARCH suffixes, build constraints),
+// directory names that need escaping in a linker symbol.
+
 import (
+	"fmt"
+	"go/ast"
+	"go/parser"
+	"go/token"
+	"io/fs"
+	"log"
+	"os"
+	"path/filepath"
+	"regexp"
+	"sort"
+	"strings"
 	"testing"
 
 	"pgregory.net/rapid"
 	"verifharness/vlib"
 )
 
+const (
+	c20Prefix    = "github.com/ProjectSerenity/firefly/kernel"
+	c20Directive = "//go:redirect-from"
+)
+
+// ---------------------------------------------------------------------------
+// case description
+
+// c20Line is one comment. K selects its shape:
+//
+//	redirect   //go:redirect-from<WS><Sym><TWS>          (the annotation, when in a plain function's doc)
+//	spaced     // go:redirect-from <Sym>
+//	mention    // <prose> //go:redirect-from <Sym>
+//	case       //go:Redirect-From <Sym> and friends      (variant V)
+//	near       //go:redirect <Sym>, //go:redirect-to ... (variant V)
+//	block      /* //go:redirect-from <Sym> */  (V=0)  or the same over three lines (V=1)
+//	prose      // <words>                                (variant V)
+//	empty      //
+//	directive  //go:nosplit, //go:noinline, //go:linkname ... (variant V)
+type c20Line struct {
+	K   string `json:"k"`
+	Sym string `json:"sym,omitempty"`
+	WS  string `json:"ws,omitempty"`
+	TWS string `json:"tws,omitempty"`
+	V   int    `json:"v,omitempty"`
+}
+
+// c20Item is one top-level element of a file.
+//
+//	func     plain function; Doc is its doc comment (attached, no blank line)
+//	method   function with a receiver (never carries a redirect line)
+//	var, const, type, group (parenthesised var block), funclit (var f = func(){})
+//	comment  a free-standing comment group (Doc holds its lines), always followed by a blank line
+type c20Item struct {
+	Kind     string    `json:"kind"`
+	Name     string    `json:"name,omitempty"`
+	Tight    bool      `json:"tight,omitempty"`    // no blank line between the previous element and this one
+	Detached []c20Line `json:"detached,omitempty"` // comment group above the element, separated from it by a blank line
+	Doc      []c20Line `json:"doc,omitempty"`      // comment lines directly above the declaration
+	Body     string    `json:"body,omitempty"`     // func/method: "none" (no body), "empty" ({}), "stmts", "comments" (only comments)
+	Inner    []c20Line `json:"inner,omitempty"`    // comments inside the body / struct / var block
+	Lit      bool      `json:"lit,omitempty"`      // func body: the inner comments directly precede a function literal
+	Trail    *c20Line  `json:"trail,omitempty"`    // comment trailing the last line of the declaration
+	V        int       `json:"v,omitempty"`        // type: 0 struct, 1 interface
+}
+
+type c20File struct {
+	Name        string    `json:"name"`
+	Kind        string    `json:"kind"` // "go", "test" (_test.go), "other" (not a .go file)
+	Pkg         string    `json:"pkg"`
+	Junk        bool      `json:"junk,omitempty"` // other: content is not Go at all
+	Header      []c20Line `json:"header,omitempty"`
+	HeaderTight bool      `json:"header_tight,omitempty"` // header directly above the package clause (package doc)
+	Items       []c20Item `json:"items,omitempty"`
+	NoNL        bool      `json:"no_nl,omitempty"` // no newline at the end of the file
+}
+
+type c20Dir struct {
+	Path  string    `json:"path"` // slash separated, "" = tree root
+	Files []c20File `json:"files,omitempty"`
+}
+
+type c20Case struct {
+	Kernel bool     `json:"kernel,omitempty"` // the deterministic sub-check on $VERIF_REPO/kernel
+	Dirs   []c20Dir `json:"dirs,omitempty"`
+}
+
+type c20Entry struct{ Src, Dst string }
+
+func (e c20Entry) String() string { return fmt.Sprintf("%q -> %q", e.Src, e.Dst) }
+
+// ---------------------------------------------------------------------------
+// rendering
+
+var (
+	c20CaseVariants = []string{"//go:Redirect-From ", "//GO:redirect-from ", "//go:REDIRECT-FROM ", "//Go:redirect-from "}
+	c20NearVariants = []string{"//go:redirect ", "//go:redirect-to ", "//go:redirectfrom ", "//go:redirect_from ",
+		"//go: redirect-from ", "///go:redirect-from ", "//go:redirect-fro ", "// +go:redirect-from ", "//-go:redirect-from ",
+		"//go:redirect-\tfrom ", "//\tgo:redirect-from "}
+	c20ProseVariants = []string{"// This function replaces the runtime's version.", "// TODO: revisit once the allocator is up.",
+		"// see //go:nosplit and friends", "// redirect-from is handled by kbuild", "//nolint", "// Deprecated: do not use.",
+		"// go:redirect", "//\tindented example code"}
+	c20MentionPrefix  = []string{"// see ", "// was: ", "//  ", "// NOTE(x): "}
+	c20DirectiveLines = []string{"//go:nosplit", "//go:noinline", "//go:linkname local runtime.remote", "//go:nowritebarrier",
+		"//go:norace", "//go:noescape", "//go:nosplit ", "//go:generate echo //go:redirect"}
+)
+
+func c20Pick(list []string, v int) string {
+	if v < 0 {
+		v = -v
+	}
+	return list[v%len(list)]
+}
+
+// text renders the comment. single forces a one-line form (trailing position).
+func (l c20Line) text(single bool) string {
+	switch l.K {
+	case "redirect":
+		return c20Directive + l.WS + l.Sym + l.TWS
+	case "spaced":
+		return "// go:redirect-from " + l.Sym
+	case "mention":
+		return c20Pick(c20MentionPrefix, l.V) + c20Directive + " " + l.Sym
+	case "case":
+		return c20Pick(c20CaseVariants, l.V) + l.Sym
+	case "near":
+		return c20Pick(c20NearVariants, l.V) + l.Sym
+	case "block":
+		if l.V%2 == 1 && !single {
+			return "/*\n" + c20Directive + " " + l.Sym + "\n*/"
+		}
+		return "/* " + c20Directive + " " + l.Sym + " */"
+	case "prose":
+		return c20Pick(c20ProseVariants, l.V)
+	case "empty":
+		return "//"
+	case "directive":
+		return c20Pick(c20DirectiveLines, l.V)
+	}
+	panic("c20: bad line kind " + l.K)
+}
+
+// lookalike reports whether the rendered comment contains the text
+// "go:redirect-from" in some form (so that it looks like an annotation).
+func (l c20Line) lookalike() bool {
+	switch l.K {
+	case "redirect", "spaced", "mention", "case", "block":
+		return true
+	case "near":
+		return strings.Contains(strings.ToLower(l.text(true)), "redirect")
+	}
+	return false
+}
+
+func c20WriteLines(b *strings.Builder, indent string, lines []c20Line) {
+	for _, l := range lines {
+		for _, part := range strings.Split(l.text(false), "\n") {
+			if strings.HasPrefix(part, "*/") || strings.HasPrefix(part, c20Directive) && l.K == "block" {
+				// inside a block comment: keep column 0 so that the text really
+				// looks like a directive line
+				b.WriteString(part)
+			} else {
+				b.WriteString(indent)
+				b.WriteString(part)
+			}
+			b.WriteByte('\n')
+		}
+	}
+}
+
+func (it c20Item) trail() string {
+	if it.Trail == nil {
+		return ""
+	}
+	return " " + it.Trail.text(true)
+}
+
+// render writes the element (without the separating blank line before it).
+func (it c20Item) render(b *strings.Builder) {
+	if len(it.Detached) > 0 {
+		c20WriteLines(b, "", it.Detached)
+		b.WriteByte('\n')
+	}
+	c20WriteLines(b, "", it.Doc)
+	switch it.Kind {
+	case "comment":
+		// Doc already written
+	case "func", "method":
+		head := "func " + it.Name
+		if it.Kind == "method" {
+			head = "func (r *" + it.Name + "Recv) " + it.Name
+		}
+		switch it.Body {
+		case "none":
+			b.WriteString(head + "(a, b uintptr) uintptr" + it.trail() + "\n")
+		case "empty":
+			b.WriteString(head + "() {}" + it.trail() + "\n")
+		case "comments":
+			b.WriteString(head + "() {\n")
+			c20WriteLines(b, "\t", it.Inner)
+			b.WriteString("}" + it.trail() + "\n")
+		default: // stmts
+			b.WriteString(head + "(x int) int {\n\tx++\n")
+			c20WriteLines(b, "\t", it.Inner)
+			if it.Lit {
+				b.WriteString("\tg := func() {}\n\tg()\n")
+			}
+			b.WriteString("\treturn x\n}" + it.trail() + "\n")
+		}
+	case "var":
+		b.WriteString("var " + it.Name + " int = 1" + it.trail() + "\n")
+	case "const":
+		b.WriteString("const " + it.Name + " = 1" + it.trail() + "\n")
+	case "funclit":
+		b.WriteString("var " + it.Name + " = func(x int) int {\n")
+		c20WriteLines(b, "\t", it.Inner)
+		b.WriteString("\treturn x\n}" + it.trail() + "\n")
+	case "type":
+		if it.V%2 == 1 {
+			b.WriteString("type " + it.Name + " interface {\n")
+			c20WriteLines(b, "\t", it.Inner)
+			b.WriteString("\tM(x int) int\n}" + it.trail() + "\n")
+		} else {
+			b.WriteString("type " + it.Name + " struct {\n")
+			c20WriteLines(b, "\t", it.Inner)
+			b.WriteString("\tF func()\n}" + it.trail() + "\n")
+		}
+	case "group":
+		b.WriteString("var (\n")
+		c20WriteLines(b, "\t", it.Inner)
+		b.WriteString("\t" + it.Name + " = func() {}\n)" + it.trail() + "\n")
+	default:
+		panic("c20: bad item kind " + it.Kind)
+	}
+}
+
+const c20JunkText = "this is not Go {{{\n//go:redirect-from runtime.junk\nfunc (\n"
+
+func (f c20File) render() string {
+	if f.Junk {
+		return c20JunkText
+	}
+	var b strings.Builder
+	if len(f.Header) > 0 {
+		c20WriteLines(&b, "", f.Header)
+		if !f.HeaderTight {
+			b.WriteByte('\n')
+		}
+	}
+	b.WriteString("package " + f.Pkg + "\n")
+	prevComment := false
+	for _, it := range f.Items {
+		if !it.Tight || prevComment {
+			b.WriteByte('\n')
+		}
+		it.render(&b)
+		prevComment = it.Kind == "comment"
+	}
+	s := b.String()
+	if f.NoNL {
+		s = strings.TrimSuffix(s, "\n")
+	}
+	return s
+}
+
+// ---------------------------------------------------------------------------
+// model (by construction) and classification
+
+func c20ImportPath(dir string) string {
+	if dir == "" {
+		return c20Prefix
+	}
+	return c20Prefix + "/" + dir
+}
+
+func c20Model(c c20Case) []c20Entry {
+	var m []c20Entry
+	for _, d := range c.Dirs {
+		for _, f := range d.Files {
+			if f.Kind != "go" {
+				continue
+			}
+			for _, it := range f.Items {
+				if it.Kind != "func" {
+					continue
+				}
+				for _, l := range it.Doc {
+					if l.K == "redirect" {
+						m = append(m, c20Entry{l.Sym, c20ImportPath(d.Path) + "." + it.Name})
+					}
+				}
+			}
+		}
+	}
+	return m
+}
+
+func c20Depth(p string) int {
+	if p == "" {
+		return 0
+	}
+	return strings.Count(p, "/") + 1
+}
+
+func c20Classify(c c20Case) (nontrivial bool, labels []string) {
+	if c.Kernel {
+		return false, []string{"real-kernel"}
+	}
+	set := map[string]bool{}
+	add := func(l string) { set[l] = true }
+	maxDepth, files, lookalikes, entries := 0, 0, 0, 0
+	twoInFile := false
+	syms := map[string]int{}
+	funcDirs := map[string]map[string]bool{}
+	look := func(place string, lines []c20Line) {
+		for _, l := range lines {
+			if l.lookalike() {
+				lookalikes++
+				add("la:" + l.K + "@" + place)
+			}
+		}
+	}
+	for _, d := range c.Dirs {
+		if dp := c20Depth(d.Path); dp > maxDepth {
+			maxDepth = dp
+		}
+		if strings.Contains(d.Path, "_test") {
+			add("dir-name-contains-_test")
+		}
+		if len(d.Files) == 0 {
+			add("empty-dir")
+		}
+		for _, f := range d.Files {
+			files++
+			sfx := ""
+			switch f.Kind {
+			case "test":
+				sfx = "/testfile"
+			case "other":
+				sfx = "/otherfile"
+				if f.Junk {
+					add("junk-file")
+				}
+			default:
+				if strings.Contains(f.Name, "test") {
+					add("go-file-name-contains-test")
+				}
+			}
+			if f.NoNL {
+				add("no-final-newline")
+			}
+			look("header"+sfx, f.Header)
+			annotatedFuncs := 0
+			for i, it := range f.Items {
+				place := it.Kind + sfx
+				look("detached-above-"+place, it.Detached)
+				look("inside-"+place, it.Inner)
+				if it.Trail != nil {
+					look("trailing-"+place, []c20Line{*it.Trail})
+				}
+				if it.Kind != "func" || f.Kind != "go" {
+					if it.Kind == "comment" {
+						if it.Tight && i > 0 {
+							look("directly-after-"+f.Items[i-1].Kind+sfx, it.Doc)
+						} else {
+							look("free-comment"+sfx, it.Doc)
+						}
+					} else {
+						look("doc-of-"+place, it.Doc)
+					}
+					continue
+				}
+				// plain function of a scanned file
+				n := 0
+				for li, l := range it.Doc {
+					if l.K != "redirect" {
+						if l.lookalike() {
+							lookalikes++
+							add("la:" + l.K + "@func-doc")
+						}
+						if l.K == "directive" && n > 0 {
+							add("annotation-before-other-directive")
+						}
+						continue
+					}
+					n++
+					entries++
+					syms[l.Sym]++
+					switch {
+					case li == 0 && len(it.Doc) > 1:
+						add("annotation-first-of-doc")
+					case li == len(it.Doc)-1 && len(it.Doc) > 1:
+						add("annotation-last-of-doc")
+					case len(it.Doc) > 1:
+						add("annotation-mid-doc")
+					default:
+						add("annotation-alone")
+					}
+					if l.WS != " " {
+						add("annotation-extra-blanks")
+					}
+					if strings.Contains(l.WS, "\t") {
+						add("annotation-tab")
+					}
+					if l.TWS != "" {
+						add("annotation-trailing-blanks")
+					}
+				}
+				if n == 0 {
+					continue
+				}
+				annotatedFuncs++
+				if n >= 2 {
+					add("func-with-2+-annotations")
+				}
+				if n >= 3 {
+					add("func-with-3+-annotations")
+				}
+				if it.Body == "none" {
+					add("annotated-func-without-body")
+				}
+				if it.Tight && i > 0 && f.Items[i-1].Kind != "comment" && len(it.Detached) == 0 {
+					add("annotated-doc-tight-after-" + f.Items[i-1].Kind)
+				}
+				if it.Tight && i == 0 && len(it.Detached) == 0 {
+					add("annotated-doc-tight-after-package-clause")
+				}
+				if len(it.Detached) > 0 {
+					add("annotated-func-with-detached-group-above")
+				}
+				if d.Path == "" {
+					add("annotated-func-in-root-dir")
+				}
+				if funcDirs[it.Name] == nil {
+					funcDirs[it.Name] = map[string]bool{}
+				}
+				funcDirs[it.Name][d.Path] = true
+			}
+			if annotatedFuncs >= 2 {
+				twoInFile = true
+				add("file-with-2+-annotated-funcs")
+			}
+			if annotatedFuncs >= 3 {
+				add("file-with-3+-annotated-funcs")
+			}
+		}
+	}
+	for _, n := range syms {
+		if n > 1 {
+			add("duplicate-source-symbol")
+		}
+	}
+	for _, ds := range funcDirs {
+		if len(ds) > 1 {
+			add("same-func-name-annotated-in-2-dirs")
+		}
+	}
+	add(fmt.Sprintf("depth-%d", maxDepth))
+	switch {
+	case entries == 0:
+		add("entries-0")
+	case entries <= 3:
+		add("entries-1..3")
+	case entries <= 10:
+		add("entries-4..10")
+	default:
+		add("entries-11+")
+	}
+	switch {
+	case files <= 2:
+		add("files-0..2")
+	case files <= 8:
+		add("files-3..8")
+	default:
+		add("files-9+")
+	}
+	if lookalikes == 0 {
+		add("no-lookalike")
+	}
+	for l := range set {
+		labels = append(labels, l)
+	}
+	sort.Strings(labels)
+	return twoInFile && lookalikes >= 1, labels
+}
+
+// ---------------------------------------------------------------------------
+// domain check of a case (generator contract; also guards hand-written replays)
+
+var (
+	c20IdentRe   = regexp.MustCompile(`^[A-Za-z][A-Za-z0-9_]*$`)
+	c20DirSegRe  = regexp.MustCompile(`^[a-z][a-z0-9_]*$`)
+	c20FileRe    = regexp.MustCompile(`^[A-Za-z0-9][A-Za-z0-9_.~]*$`)
+	c20SymRe     = regexp.MustCompile(`^[^\s]+$`)
+	c20BlanksRe  = regexp.MustCompile(`^[ \t]+$`)
+	c20OSArchRe  = regexp.MustCompile(`_(aix|android|darwin|dragonfly|freebsd|illumos|ios|js|linux|netbsd|openbsd|plan9|solaris|wasip1|windows|unix|386|amd64|arm|arm64|loong64|mips|mips64|mips64le|mipsle|ppc64|ppc64le|riscv64|s390x|wasm)(_test)?\.go$`)
+	c20Forbidden = map[string]bool{"init": true, "main": true, "_": true}
+	c20GoKeyword = map[string]bool{"break": true, "case": true, "chan": true, "const": true, "continue": true, "default": true,
+		"defer": true, "else": true, "fallthrough": true, "for": true, "func": true, "go": true, "goto": true, "if": true,
+		"import": true, "interface": true, "map": true, "package": true, "range": true, "return": true, "select": true,
+		"struct": true, "switch": true, "type": true, "var": true}
+)
+
+func c20ValidLines(where string, lines []c20Line, allowRedirect bool) error {
+	for _, l := range lines {
+		switch l.K {
+		case "redirect":
+			if !allowRedirect {
+				return fmt.Errorf("%s: exact redirect line where the statement does not decide", where)
+			}
+			if !c20BlanksRe.MatchString(l.WS) || (l.TWS != "" && !c20BlanksRe.MatchString(l.TWS)) {
+				return fmt.Errorf("%s: redirect line needs blanks (only) around the symbol", where)
+			}
+			fallthrough
+		case "spaced", "mention", "case", "near", "block":
+			if !c20SymRe.MatchString(l.Sym) || strings.Contains(l.Sym, "*/") {
+				return fmt.Errorf("%s: bad symbol %q", where, l.Sym)
+			}
+		case "prose", "empty", "directive":
+		default:
+			return fmt.Errorf("%s: unknown line kind %q", where, l.K)
+		}
+	}
+	return nil
+}
+
+func c20Validate(c c20Case) error {
+	if c.Kernel {
+		return nil
+	}
+	dirs := map[string]bool{}
+	for _, d := range c.Dirs {
+		if dirs[d.Path] {
+			return fmt.Errorf("directory %q twice", d.Path)
+		}
+		dirs[d.Path] = true
+		if d.Path != "" {
+			for _, seg := range strings.Split(d.Path, "/") {
+				if !c20DirSegRe.MatchString(seg) || seg == "testdata" || seg == "vendor" {
+					return fmt.Errorf("directory %q outside the domain", d.Path)
+				}
+			}
+		}
+		names := map[string]bool{}
+		idents := map[string]bool{}
+		for _, f := range d.Files {
+			where := d.Path + "/" + f.Name
+			if names[f.Name] || !c20FileRe.MatchString(f.Name) {
+				return fmt.Errorf("%s: bad or duplicate file name", where)
+			}
+			names[f.Name] = true
+			isGo := filepath.Ext(f.Name) == ".go"
+			isTest := strings.HasSuffix(f.Name, "_test.go")
+			switch f.Kind {
+			case "go":
+				if !isGo || isTest {
+					return fmt.Errorf("%s: kind go needs a non-test .go name", where)
+				}
+			case "test":
+				if !isTest {
+					return fmt.Errorf("%s: kind test needs a _test.go name", where)
+				}
+			case "other":
+				if isGo {
+					return fmt.Errorf("%s: kind other must not end in .go", where)
+				}
+			default:
+				return fmt.Errorf("%s: unknown file kind %q", where, f.Kind)
+			}
+			if c20OSArchRe.MatchString(f.Name) {
+				return fmt.Errorf("%s: GOOS/GOARCH file names are outside the domain", where)
+			}
+			if f.Junk && f.Kind != "other" {
+				return fmt.Errorf("%s: only non-Go files may hold junk", where)
+			}
+			if !c20IdentRe.MatchString(f.Pkg) || c20GoKeyword[f.Pkg] || f.Pkg == "main" {
+				return fmt.Errorf("%s: bad package name %q", where, f.Pkg)
+			}
+			if err := c20ValidLines(where+" header", f.Header, true); err != nil {
+				return err
+			}
+			for _, it := range f.Items {
+				w := where + ":" + it.Kind + " " + it.Name
+				if it.Kind != "comment" {
+					if !c20IdentRe.MatchString(it.Name) || c20Forbidden[it.Name] || c20GoKeyword[it.Name] {
+						return fmt.Errorf("%s: bad name", w)
+					}
+					if idents[it.Name] {
+						return fmt.Errorf("%s: name declared twice in the package", w)
+					}
+					idents[it.Name] = true
+				}
+				isFunc := it.Kind == "func" || it.Kind == "method"
+				switch it.Kind {
+				case "func", "method":
+					switch it.Body {
+					case "none", "empty", "stmts", "comments":
+					default:
+						return fmt.Errorf("%s: bad body kind %q", w, it.Body)
+					}
+				case "var", "const", "type", "group", "funclit":
+				case "comment":
+					if len(it.Doc) == 0 || len(it.Detached) > 0 || it.Trail != nil || len(it.Inner) > 0 {
+						return fmt.Errorf("%s: a comment element has doc lines only", w)
+					}
+				default:
+					return fmt.Errorf("%s: unknown element kind", w)
+				}
+				if err := c20ValidLines(w+" detached", it.Detached, true); err != nil {
+					return err
+				}
+				// an exact annotation above a method is not decided by the statement
+				if err := c20ValidLines(w+" doc", it.Doc, it.Kind != "method"); err != nil {
+					return err
+				}
+				if err := c20ValidLines(w+" inner", it.Inner, true); err != nil {
+					return err
+				}
+				if it.Trail != nil {
+					// an exact annotation trailing the function's own line is not decided by the statement
+					if err := c20ValidLines(w+" trail", []c20Line{*it.Trail}, !isFunc); err != nil {
+						return err
+					}
+				}
+			}
+		}
+	}
+	return nil
+}
+
+// ---------------------------------------------------------------------------
+// harness self-check: the generator's claim about which comment lines form the
+// doc comment of which function is compared with go/parser's FuncDecl.Doc (Go's
+// definition of a doc comment). Disagreement is a harness error, never a
+// violation. Test files and Go-looking non-Go files must parse as well.
+
+func c20SelfCheck(c c20Case) error {
+	fset := token.NewFileSet()
+	for _, d := range c.Dirs {
+		for _, f := range d.Files {
+			if f.Junk {
+				continue
+			}
+			src := f.render()
+			af, err := parser.ParseFile(fset, f.Name, src, parser.ParseComments)
+			if err != nil {
+				return fmt.Errorf("generated file %s/%s does not parse: %v\n%s", d.Path, f.Name, err, src)
+			}
+			var got, want []string
+			for _, decl := range af.Decls {
+				fd, ok := decl.(*ast.FuncDecl)
+				if !ok || fd.Doc == nil || fd.Recv != nil {
+					continue
+				}
+				for _, cm := range fd.Doc.List {
+					if strings.HasPrefix(cm.Text, c20Directive+" ") || strings.HasPrefix(cm.Text, c20Directive+"\t") {
+						got = append(got, fd.Name.Name+" <- "+strings.TrimSpace(cm.Text[len(c20Directive):]))
+					}
+				}
+			}
+			for _, it := range f.Items {
+				if it.Kind != "func" {
+					continue
+				}
+				for _, l := range it.Doc {
+					if l.K == "redirect" {
+						want = append(want, it.Name+" <- "+l.Sym)
+					}
+				}
+			}
+			if strings.Join(got, "\n") != strings.Join(want, "\n") {
+				return fmt.Errorf("generator and go/parser disagree on the doc annotations of %s/%s:\nparser: %q\ncase:   %q\n%s",
+					d.Path, f.Name, got, want, src)
+			}
+		}
+	}
+	return nil
+}
+
+// ---------------------------------------------------------------------------
+// driving the real code
+
+type c20LogTrap struct{}
+
+type c20Abort string
+
+// Write turns log.Fatalf (ctx.Fatalf) into a recoverable panic before it
+// reaches os.Exit.
+func (c20LogTrap) Write(p []byte) (int, error) { panic(c20Abort(strings.TrimSpace(string(p)))) }
+
+type c20Table struct {
+	entries []c20Entry
+	seq     []string // Comment|Src|Dst per entry, in table order
+}
+
+// c20Find runs the real FindRedirects in the current directory with a fresh
+// Context.
+func c20Find() (tab c20Table, fail *vlib.Failure) {
+	log.SetOutput(c20LogTrap{})
+	defer log.SetOutput(os.Stderr)
+	ctx := &Context{Architectures: []string{"amd64"}}
+	pc := vlib.Catch(func() { ctx.FindRedirects() })
+	if pc.Panicked {
+		if msg, ok := pc.Value.(c20Abort); ok {
+			return tab, vlib.Failf("FindRedirects aborted the build of a well-formed tree: %s", string(msg))
+		}
+		return tab, vlib.Failf("FindRedirects panicked: %v", pc)
+	}
+	for i, r := range ctx.Redirects {
+		if r == nil {
+			return tab, vlib.Failf("FindRedirects: table entry %d is nil", i)
+		}
+		tab.entries = append(tab.entries, c20Entry{r.SrcSymbol, r.DstSymbol})
+		tab.seq = append(tab.seq, r.Comment+"|"+r.SrcSymbol+"|"+r.DstSymbol)
+	}
+	return tab, nil
+}
+
+func c20Sorted(es []c20Entry) []string {
+	out := make([]string, len(es))
+	for i, e := range es {
+		out[i] = e.String()
+	}
+	sort.Strings(out)
+	return out
+}
+
+// c20Diff compares two multisets; missing = in want but not in got.
+func c20Diff(got, want []c20Entry) (missing, unexpected []string) {
+	cnt := map[c20Entry]int{}
+	for _, e := range want {
+		cnt[e]++
+	}
+	for _, e := range got {
+		cnt[e]--
+	}
+	for e, n := range cnt {
+		for ; n > 0; n-- {
+			missing = append(missing, e.String())
+		}
+		for ; n < 0; n++ {
+			unexpected = append(unexpected, e.String())
+		}
+	}
+	sort.Strings(missing)
+	sort.Strings(unexpected)
+	return
+}
+
+func c20Clip(l []string) string {
+	if len(l) > 6 {
+		return fmt.Sprintf("%s … (%d in all)", strings.Join(l[:6], "; "), len(l))
+	}
+	return strings.Join(l, "; ")
+}
+
+// c20Reps is the number of builds of one tree. The statement's "twice" is
+// checked with at least 5 builds; small trees, where a build costs a few
+// microseconds, get up to 32 so that an order that changes only in one build
+// out of eight is still seen reliably (and a failing case stays reproducible
+// while it is minimised).
+func c20Reps(goFiles int) int {
+	if goFiles < 1 {
+		goFiles = 1
+	}
+	r := 64 / goFiles
+	if r < 5 {
+		r = 5
+	}
+	if r > 32 {
+		r = 32
+	}
+	return r
+}
+
+// c20CheckDir runs both oracles in dir against the model.
+func c20CheckDir(dir string, model []c20Entry, reps int) *vlib.Failure {
+	old, err := os.Getwd()
+	if err != nil {
+		panic("c20: getwd: " + err.Error())
+	}
+	if err := os.Chdir(dir); err != nil {
+		panic("c20: chdir: " + err.Error())
+	}
+	defer os.Chdir(old)
+
+	first, fail := c20Find()
+	if fail != nil {
+		return fail
+	}
+	if missing, unexpected := c20Diff(first.entries, model); len(missing)+len(unexpected) > 0 {
+		return vlib.Failf("redirect table differs from the annotations of the tree: %d entries for %d annotations; missing [%s]; not annotated [%s]",
+			len(first.entries), len(model), c20Clip(missing), c20Clip(unexpected))
+	}
+	for i := 1; i < reps; i++ {
+		again, fail := c20Find()
+		if fail != nil {
+			return fail
+		}
+		if strings.Join(again.seq, "\n") == strings.Join(first.seq, "\n") {
+			continue
+		}
+		if missing, unexpected := c20Diff(again.entries, first.entries); len(missing)+len(unexpected) > 0 {
+			return vlib.Failf("building the same tree again gave a different table: entries that vanished [%s]; new entries [%s]",
+				c20Clip(missing), c20Clip(unexpected))
+		}
+		// deterministic text (rapid only minimises reproducible messages): the sorted
+		// content only; a replay also prints the two orders it happened to see
+		if os.Getenv("VERIF_REPLAY") != "" {
+			fmt.Printf("C20 order, first build: %q\nC20 order, build %d:     %q\n", first.seq, i+1, again.seq)
+		}
+		return vlib.Failf("building the same tree again (fresh Context, %d builds) gave the same %d entries in a different order, so the redirect table in the image is not reproducible; entries: [%s]",
+			reps, len(first.entries), c20Clip(c20Sorted(first.entries)))
+	}
+	return nil
+}
+
+func c20Run(c c20Case) *vlib.Failure {
+	if c.Kernel {
+		return c20RunKernel()
+	}
+	root, err := os.MkdirTemp(os.Getenv("VERIF_C20_TMP"), "c20tree-")
+	if err != nil {
+		panic("c20: mkdirtemp: " + err.Error())
+	}
+	defer os.RemoveAll(root)
+	goFiles := 0
+	for _, d := range c.Dirs {
+		dp := filepath.Join(root, filepath.FromSlash(d.Path))
+		if err := os.MkdirAll(dp, 0o755); err != nil {
+			panic("c20: mkdir: " + err.Error())
+		}
+		for _, f := range d.Files {
+			if err := os.WriteFile(filepath.Join(dp, f.Name), []byte(f.render()), 0o644); err != nil {
+				panic("c20: write: " + err.Error())
+			}
+			if f.Kind == "go" {
+				goFiles++
+			}
+		}
+	}
+	return c20CheckDir(root, c20Model(c), c20Reps(goFiles))
+}
+
+// ---------------------------------------------------------------------------
+// the real kernel tree against an independent line-based scanner
+
+// c20ScanLines finds the annotations of one file without parsing Go: an
+// annotation is a line starting (column 0) with "//go:redirect-from" followed by
+// a blank, inside the run of column-0 comment lines that directly precedes a
+// line starting with "func <identifier>".
+func c20ScanLines(src string) (out [][2]string) {
+	var pending []string
+	inBlock := false
+	for _, line := range strings.Split(src, "\n") {
+		line = strings.TrimSuffix(line, "\r")
+		if inBlock {
+			if strings.Contains(line, "*/") {
+				inBlock = false
+			}
+			continue
+		}
+		switch {
+		case strings.HasPrefix(line, "//"):
+			rest := strings.TrimPrefix(line, c20Directive)
+			if rest != line && rest != "" && (rest[0] == ' ' || rest[0] == '\t') {
+				pending = append(pending, strings.TrimSpace(rest))
+			}
+		case strings.HasPrefix(line, "/*"):
+			if !strings.Contains(line[2:], "*/") {
+				inBlock = true
+			}
+		case strings.HasPrefix(line, "func "):
+			rest := strings.TrimLeft(line[5:], " ")
+			end := strings.IndexAny(rest, "([ ")
+			if end > 0 { // end == 0: method receiver
+				for _, sym := range pending {
+					out = append(out, [2]string{sym, rest[:end]})
+				}
+			}
+			pending = nil
+		default:
+			pending = nil
+		}
+	}
+	return out
+}
+
+func c20KernelRoot() string {
+	repo := os.Getenv("VERIF_REPO")
+	if repo == "" {
+		repo = "/repo"
+	}
+	return filepath.Join(repo, "kernel")
+}
+
+func c20RunKernel() *vlib.Failure {
+	root := c20KernelRoot()
+	var model []c20Entry
+	err := filepath.WalkDir(root, func(p string, d fs.DirEntry, err error) error {
+		if err != nil {
+			return err
+		}
+		if d.IsDir() || !strings.HasSuffix(p, ".go") || strings.HasSuffix(p, "_test.go") {
+			return nil
+		}
+		b, err := os.ReadFile(p)
+		if err != nil {
+			return err
+		}
+		rel, err := filepath.Rel(root, filepath.Dir(p))
+		if err != nil {
+			return err
+		}
+		dir := filepath.ToSlash(rel)
+		if dir == "." {
+			dir = ""
+		}
+		for _, a := range c20ScanLines(string(b)) {
+			model = append(model, c20Entry{a[0], c20ImportPath(dir) + "." + a[1]})
+		}
+		return nil
+	})
+	if err != nil {
+		panic("c20: cannot scan " + root + ": " + err.Error())
+	}
+	if len(model) == 0 {
+		panic("c20: the line scanner found no annotation in " + root)
+	}
+	return c20CheckDir(root, model, 5)
+}
+
+// ---------------------------------------------------------------------------
+// generators
+
+var (
+	c20SymPkgs  = []string{"runtime", "runtime", "runtime/internal/sys", "runtime/internal/atomic", "main", "sync", "internal/cpu", "reflect"}
+	c20SymNames = []string{"init", "sysReserve", "sysMap", "sysAlloc", "nanotime", "getRandomData", "gopanic", "throw", "mallocgc",
+		"(*mcache).refill", "newproc1", "memmove", "x", "µs", "init.0", "gcenable.func1", "lock2"}
+	c20DirNames  = []string{"mm", "pmm", "vmm", "kfmt", "cpu", "hal", "goruntime", "sync", "kmain", "driver", "video", "console", "tty", "acpi", "aml", "x1", "a_b", "kfmt_test", "testutil", "internal", "test"}
+	c20FileBases = []string{"a", "boot", "mem", "alloc", "panic", "stub", "test", "testing", "xtest", "test_util", "util_test_helper", "go", "doc", "b2"}
+	c20OtherExts = []string{".txt", ".s", ".go.bak", ".gox", ".md", ".go~", ".GO", ".h", "", ".go.orig", ".goo"}
+	c20FuncNames = []string{"Kmain", "Panic", "panicString", "runtimeInit", "sysReserve", "sysMap", "sysAlloc", "nanotime", "getRandomData", "AllocFrame", "f", "g", "Init", "handle", "main_"}
+	c20WS        = []string{" ", " ", " ", "  ", "\t", " \t", "\t ", "     "}
+	c20TWS       = []string{"", "", "", "", " ", "\t", "  \t"}
+	c20Bodies    = []string{"stmts", "stmts", "empty", "none", "comments"}
+)
+
+func c20GenSym(t *rapid.T) string {
+	return rapid.SampledFrom(c20SymPkgs).Draw(t, "sympkg") + "." + rapid.SampledFrom(c20SymNames).Draw(t, "symname")
+}
+
+// c20GenLine draws one comment line. pRedirect is the percentage of exact
+// `//go:redirect-from` lines; the rest is split between neutral lines and the
+// other look-alikes.
+func c20GenLine(t *rapid.T, pRedirect int, allowRedirect bool) c20Line {
+	r := rapid.IntRange(0, 99).Draw(t, "linekind")
+	if r < pRedirect && allowRedirect {
+		return c20Line{K: "redirect", Sym: c20GenSym(t), WS: rapid.SampledFrom(c20WS).Draw(t, "ws"), TWS: rapid.SampledFrom(c20TWS).Draw(t, "tws")}
+	}
+	k := rapid.SampledFrom([]string{"prose", "prose", "prose", "directive", "directive", "empty", "spaced", "mention", "case", "near", "block"}).Draw(t, "otherkind")
+	l := c20Line{K: k}
+	switch k {
+	case "prose", "directive", "case", "near", "mention", "block":
+		l.V = rapid.IntRange(0, 11).Draw(t, "variant")
+	}
+	switch k {
+	case "spaced", "mention", "case", "near", "block":
+		l.Sym = c20GenSym(t)
+	}
+	return l
+}
+
+func c20GenLines(t *rapid.T, min, max, pRedirect int, allowRedirect bool) []c20Line {
+	n := rapid.IntRange(min, max).Draw(t, "nlines")
+	var ls []c20Line
+	for i := 0; i < n; i++ {
+		ls = append(ls, c20GenLine(t, pRedirect, allowRedirect))
+	}
+	return ls
+}
+
+func c20Unique(used map[string]bool, base string) string {
+	name := base
+	for i := 2; used[name]; i++ {
+		name = fmt.Sprintf("%s%d", base, i)
+	}
+	used[name] = true
+	return name
+}
+
+func c20UniqueFile(used map[string]bool, stem, suffix string) string {
+	name := stem + suffix
+	for i := 2; used[name]; i++ {
+		name = fmt.Sprintf("%s%d%s", stem, i, suffix)
+	}
+	used[name] = true
+	return name
+}
+
+func c20GenItem(t *rapid.T, idents map[string]bool) c20Item {
+	kind := rapid.SampledFrom([]string{"func", "func", "func", "func", "func", "func", "func", "func", "func", "func",
+		"method", "var", "var", "const", "type", "type", "group", "funclit", "comment", "comment", "comment"}).Draw(t, "itemkind")
+	it := c20Item{Kind: kind, Tight: rapid.IntRange(0, 3).Draw(t, "tight") == 0}
+	if kind == "comment" {
+		it.Doc = c20GenLines(t, 1, 3, 55, true)
+		return it
+	}
+	if rapid.IntRange(0, 5).Draw(t, "hasdetached") == 0 {
+		it.Detached = c20GenLines(t, 1, 3, 60, true)
+	}
+	trail := func(allowRedirect bool) {
+		if rapid.IntRange(0, 4).Draw(t, "hastrail") == 0 {
+			l := c20GenLine(t, 60, allowRedirect)
+			it.Trail = &l
+		}
+	}
+	switch kind {
+	case "func", "method":
+		it.Name = c20Unique(idents, rapid.SampledFrom(c20FuncNames).Draw(t, "funcname"))
+		it.Body = rapid.SampledFrom(c20Bodies).Draw(t, "body")
+		switch rapid.IntRange(0, 9).Draw(t, "docshape") {
+		case 0, 1:
+			// no doc comment
+		case 2, 3:
+			// the usual shape: prose, then directives
+			it.Doc = append(c20GenLines(t, 0, 3, 0, false), c20GenLines(t, 1, 3, 70, kind == "func")...)
+		default:
+			it.Doc = c20GenLines(t, 1, 6, 40, kind == "func")
+		}
+		if it.Body == "stmts" || it.Body == "comments" {
+			if rapid.IntRange(0, 2).Draw(t, "hasinner") == 0 {
+				it.Inner = c20GenLines(t, 1, 2, 60, true)
+				it.Lit = it.Body == "stmts" && rapid.Bool().Draw(t, "lit")
+			}
+		}
+		trail(false)
+	default:
+		it.Name = c20Unique(idents, map[string]string{"var": "v", "const": "c", "type": "T", "group": "gv", "funclit": "fl"}[kind])
+		if rapid.IntRange(0, 2).Draw(t, "hasdoc") != 0 {
+			it.Doc = c20GenLines(t, 1, 3, 60, true)
+		}
+		if kind == "type" {
+			it.V = rapid.IntRange(0, 1).Draw(t, "typeshape")
+		}
+		if kind == "type" || kind == "group" || kind == "funclit" {
+			if rapid.IntRange(0, 1).Draw(t, "hasinner") == 0 {
+				it.Inner = c20GenLines(t, 1, 2, 60, true)
+			}
+		}
+		trail(true)
+	}
+	return it
+}
+
+func c20PkgName(dir string) string {
+	if dir == "" {
+		return "kernel"
+	}
+	return dir[strings.LastIndex(dir, "/")+1:]
+}
+
+func c20GenFile(t *rapid.T, dir string, names, idents map[string]bool) c20File {
+	kind := rapid.SampledFrom([]string{"go", "go", "go", "go", "go", "go", "go", "test", "test", "other"}).Draw(t, "filekind")
+	base := rapid.SampledFrom(c20FileBases).Draw(t, "filebase")
+	f := c20File{Kind: kind, Pkg: c20PkgName(dir)}
+	switch kind {
+	case "go":
+		f.Name = c20UniqueFile(names, base, ".go")
+	case "test":
+		f.Name = c20UniqueFile(names, base, "_test.go")
+		if rapid.Bool().Draw(t, "xtest") {
+			f.Pkg += "_test"
+		}
+	default:
+		f.Name = c20UniqueFile(names, base+"_f", rapid.SampledFrom(c20OtherExts).Draw(t, "ext"))
+		f.Junk = rapid.IntRange(0, 3).Draw(t, "junk") == 0
+		if f.Junk {
+			return f
+		}
+	}
+	if rapid.IntRange(0, 4).Draw(t, "hasheader") == 0 {
+		f.Header = c20GenLines(t, 1, 3, 50, true)
+		f.HeaderTight = rapid.Bool().Draw(t, "headertight")
+	}
+	// test and non-Go files declare into their own name space so that the
+	// package stays free of duplicate declarations
+	ids := idents
+	if kind != "go" {
+		ids = map[string]bool{}
+	}
+	n := rapid.IntRange(0, 7).Draw(t, "nitems")
+	for i := 0; i < n; i++ {
+		it := c20GenItem(t, ids)
+		if kind != "go" && it.Name != "" {
+			it.Name = it.Name + "X" + strings.NewReplacer(".", "", "~", "", "_", "").Replace(f.Name)
+		}
+		f.Items = append(f.Items, it)
+	}
+	f.NoNL = rapid.IntRange(0, 9).Draw(t, "nonl") == 0
+	return f
+}
+
+func c20GenCase(t *rapid.T) c20Case {
+	var c c20Case
+	ndirs := rapid.IntRange(1, 6).Draw(t, "ndirs")
+	paths := []string{""}
+	used := map[string]bool{"": true}
+	for len(paths) < ndirs {
+		parent := paths[rapid.IntRange(0, len(paths)-1).Draw(t, "parent")]
+		if rapid.IntRange(0, 2).Draw(t, "deepen") != 0 {
+			parent = paths[len(paths)-1] // favour chains, so that depth 3..5 is common
+		}
+		if c20Depth(parent) >= 5 {
+			parent = ""
+		}
+		name := rapid.SampledFrom(c20DirNames).Draw(t, "dirname")
+		p := name
+		if parent != "" {
+			p = parent + "/" + name
+		}
+		for i := 2; used[p]; i++ {
+			p = fmt.Sprintf("%s%d", strings.TrimRight(p, "0123456789"), i)
+		}
+		used[p] = true
+		paths = append(paths, p)
+	}
+	for _, p := range paths {
+		d := c20Dir{Path: p}
+		nfiles := rapid.IntRange(0, 4).Draw(t, "nfiles")
+		names := map[string]bool{}
+		idents := map[string]bool{}
+		for i := 0; i < nfiles; i++ {
+			d.Files = append(d.Files, c20GenFile(t, p, names, idents))
+		}
+		c.Dirs = append(c.Dirs, d)
+	}
+	return c
+}
+
+// ---------------------------------------------------------------------------
+// tests
+
+func c20Check(t vlib.TB, c c20Case) *vlib.Failure {
+	if err := c20Validate(c); err != nil {
+		t.Fatalf("VERIF-HARNESS C20 case outside the property's domain: %v", err)
+	}
+	if err := c20SelfCheck(c); err != nil {
+		t.Fatalf("VERIF-HARNESS C20 generator model unsound: %v", err)
+	}
+	return c20Run(c)
+}
+
 func TestVerifC20(t *testing.T) {
-	_ = vlib.For("C20")
-	rapid.Check(t, func(t *rapid.T) {})
+	st := vlib.For("C20")
+	defer vlib.Flush()
+
+	// deterministic sub-check: the real kernel tree
+	// (VERIF_C20_SKIP_KERNEL=1 is a debugging knob: generated trees only)
+	if os.Getenv("VERIF_C20_SKIP_KERNEL") == "" {
+		k := c20Case{Kernel: true}
+		if _, err := os.Stat(c20KernelRoot()); err != nil {
+			t.Fatalf("VERIF-HARNESS C20 kernel tree not found: %v", err)
+		}
+		_, kl := c20Classify(k)
+		st.Case(k, false, kl...)
+		vlib.Report(t, "C20", k, c20Run(k))
+	}
+
+	rapid.Check(t, func(t *rapid.T) {
+		c := c20GenCase(t)
+		fail := c20Check(t, c)
+		nt, labels := c20Classify(c)
+		st.Case(c, nt, labels...)
+		vlib.Report(t, "C20", c, fail)
+	})
+}
+
+func TestVerifC20Replay(t *testing.T) {
+	var c c20Case
+	ok, err := vlib.LoadReplay(&c)
+	if !ok {
+		t.Skip("no replay requested")
+	}
+	if err != nil {
+		t.Fatalf("VERIF-HARNESS cannot load replay: %v", err)
+	}
+	vlib.Report(t, "C20", c, c20Check(t, c))
 }
